@@ -24,18 +24,16 @@ NAMESPACE = 'VL.C19'
 LEAN_MODULES = ['VotelibProofs.Props.C19']
 GEN_MODULES = []
 REQUIRED = ['codec_roundtrip', 'codec_reserialize_stable', 'to_from_dict_roundtrip', 'codec_rejects', 'codec_accepts', 'codec_save_ok_iff',
-            'representable_serializable', 'codec_save_or_faithful_partial', 'codec_set_altered_witness',
-            'codec_reserved_key_witness', 'codec_reserved_callable_witness', 'codec_save_or_faithful_witness',
-            'blt_roundtrip', 'blt_error_kinds', 'blt_parse_total_partial', 'blt_parse_total_inrange', 'blt_parse_total_witness_invalid_operation',
-            'blt_parse_total_witness_value_error', 'blt_parse_total_witness_index_error', 'blt_zero_index_alias_witness',
-            'blt_parse_total_witness', 'blt_fraction_weight_witness',
+            'representable_serializable', 'codec_save_or_faithful', 'codec_faithful_iff_serializable', 'codec_set_reloads',
+            'codec_reserved_key_reloads', 'codec_reserved_callable_reloads',
+            'blt_roundtrip', 'blt_parse_total', 'blt_loaded_indices_valid', 'blt_former_foreign_errors',
             'Stv.stv_nicks_distinct', 'Stv.stv_roundtrip', 'Stv.stv_error_kinds', 'Stv.stv_nick_end_witness', 'Stv.stv_empty_ballot_witness',
             'Stv.stv_roundtrip_unconditional_witness']
 REQUIRED_COUNTERS = ['codec_frac', 'codec_dec', 'codec_tuple', 'codec_fset', 'codec_sdict', 'codec_gdict', 'codec_obj', 'codec_callable',
-                     'codec_depth_4', 'unrepresentable', 'hazard_bare_set', 'hazard_reserved_key',
-                     'class_rt', 'class_bad', 'cls_depth_4', 'feat_fraction', 'feat_decimal', 'feat_callable_by_name', 'feat_dict_keyed',
+                     'codec_depth_4', 'unrepresentable', 'codec_plain_set', 'codec_reserved_key',
+                     'class_rt', 'class_bad', 'class_signatures', 'cls_depth_4', 'feat_fraction', 'feat_decimal', 'feat_callable_by_name', 'feat_dict_keyed',
                      'blt_rt', 'blt_withdrawn', 'blt_withdrawn_first', 'blt_one_candidate', 'blt_title', 'blt_weight_int',
-                     'blt_weight_dec', 'blt_weight_frac', 'blt_person', 'blt_strname', 'blt_empty_ballot',
+                     'blt_weight_dec', 'blt_weight_frac', 'blt_weight_proper_fraction', 'blt_person', 'blt_strname', 'blt_empty_ballot',
                      'blt_text', 'mut_truncate_chars', 'mut_truncate_lines', 'mut_junk_token', 'mut_index_out_of_range',
                      'mut_zero_inside', 'mut_handmade',
                      'stv_rt', 'stv_blt_mode', 'stv_own_mode', 'stv_duplicate_initials', 'stv_many_candidates', 'stv_withdrawn', 'stv_weight_frac', 'stv_weight_dec',
@@ -43,7 +41,7 @@ REQUIRED_COUNTERS = ['codec_frac', 'codec_dec', 'codec_tuple', 'codec_fset', 'co
 RULE = ('codec: random value trees of depth <= 4 over atoms (None/bool/int up to 10^30/float/str incl. unicode and identifier-like), '
         'Fraction, Decimal, list, tuple, frozenset, str-keyed and general dicts, objects (Person, PoliticalParty, NoneOfTheAbove, '
         'AbsoluteThreshold) and callables by name; plus directed streams: an unrepresentable leaf (closure, lambda, same-named local def, '
-        'functools.partial, quota.constant, object(), complex) wrapped at depth <= 3, bare sets, reserved keys. '
+        'functools.partial, quota.constant, object(), complex) wrapped at depth <= 3, plain sets, mappings with reserved keys. '
         'class_rt: every class carrying to_dict found by reflection (each at least twice per run), constructor specs nested to depth 4, '
         '6 generated inputs per object for the outcome comparison, and unrepresentable configurations. '
         'blt_rt / stv_rt: 0-6 candidates (strings or Person objects, rich printable names, duplicate names for Person), 0-6 ballots without '
@@ -59,13 +57,16 @@ NOT_VERIFIED = ['lexing of BLT/STV text (strip, split, "#" comments, quotes, str
                 'are answered "unmodelled" and not compared',
                 'str.isidentifier is modelled for ASCII; str(Decimal)/Decimal(str) are the identity on the carried text',
                 'Python equality across numeric types inside sets / dict keys (1 == True == 1.0) — the generator keeps such keys apart',
+                'the value algebra has exact builtin types only: an iterable that is not a list/tuple/set/frozenset (range, bytes, deque, subclasses) '
+                'is written as a list and a mapping that is not a dict (defaultdict, OrderedDict) as a dict — the codec theorems say nothing about '
+                'them; the one case that matters in votelib (validators holding a defaultdict) is the open finding validator_defaultdict',
+                'WFval (hypothesis of codec_save_or_faithful) lists invariants of live Python values plus one signature fact — no constructor '
+                'parameter named type/class/callable — which the harness asserts by reflection on every run (op class_sig)',
                 'frozenset iteration order (compared order-free)',
                 'STV: only the candidate / ballot section (nicknames, candidate lines, ballots=, unordered ballot lines, end) is modelled, at token '
                 'level; the system header (_dump_system / _create_system), the ordered format and name_to_initials (regex, str.lower) are not — '
                 'candidates come with their initials; math.log in the ordinal nickname length is modelled as the least k with 26^k >= n']
-UNPROVED = ['blt_parse_total (false of the current parser: witnesses proved; blt_parse_total_partial, blt_parse_total_inrange and blt_error_kinds hold)',
-            'codec_save_or_faithful (false of the current codec: bare sets, reserved keys; witnesses proved)',
-            'stv_parse_total (false of the current reader: ValueError / ZeroDivisionError / TypeError ...; Stv.stv_error_kinds holds for the section)',
+UNPROVED = [            'stv_parse_total (false of the current reader: ValueError / ZeroDivisionError / TypeError ...; Stv.stv_error_kinds holds for the section)',
             'stv_roundtrip for the system header (title, seats): oracle only']
 EXHAUSTIVE = {'thorough': True}
 
@@ -117,6 +118,10 @@ def _impl_codec(case):
 
 
 def _haz_codec(case):
+    return set()          # since 722783a the codec has no known ambiguity left: every failure is a violation
+
+
+def _feat_codec(case):
     h = set()
     CC.hazards_p(case['v'], h)
     return h
@@ -146,7 +151,7 @@ def _oracle_codec(case, obs):
 def _model_codec(case):
     names = set()
     CC.strings_in_pval(case['v'], names)
-    return {'op': 'codec', 'v': CC.iteration_order(case['v']), 'env': CC.env_for(names)}
+    return {'op': 'codec', 'v': case['v'], 'env': CC.env_for(names)}
 
 
 def _err_proto(e):
@@ -169,8 +174,6 @@ def _compare_codec(case, iobs, mobs):
     if mb is None or ib is None:
         if (mb is None) != (ib is None):
             return 'back: one side has no reload'
-    elif _is_err(ib) and ib['err'] == 'TypeError' and 'reserved_key' in _haz_codec(case) and not (_is_err(mb) and mb['err'] != 'unmodelled'):
-        pass          # a str-keyed mapping read as a class definition: the constructor call is reflection, not modelled
     elif _is_err(mb):
         if mb['err'] == 'unmodelled':
             pass
@@ -196,8 +199,8 @@ def _gen_codec(rng, n):
         elif r < 0.82:                                    # something without a spelling, anywhere inside
             p = g.wrap(g.bad_leaf(), 3)
             tags.append('unrepresentable')
-        elif r < 0.90:                                    # bare set (silently becomes a list)
-            inner = {'t': 'set', 'v': g.distinct([g.atom(True) for _ in range(rng.randint(1, 3))])}
+        elif r < 0.90:                                    # plain set (typed like a frozenset since 722783a)
+            inner = {'t': 'set', 'v': g.distinct([g.hashable(2) for _ in range(rng.randint(0, 4))])}
             p = g.wrap(inner, 2)
         else:                                             # reserved key inside a str-keyed mapping
             p = g.wrap(g.dict_(1, str_keys=True, reserved=True), 2)
@@ -213,8 +216,8 @@ def _tag_codec(c):
     for k in ('frac', 'dec', 'tuple', 'fset', 'sdict', 'gdict', 'obj', 'callable'):
         if k in kinds:
             t.append('codec_' + k)
-    for h in _haz_codec(c):
-        t.append('hazard_' + h)
+    for h in _feat_codec(c):
+        t.append('codec_' + ('plain_set' if h == 'bare_set' else h))
     d = CC.depth_p(c['v'])
     t.append(f'codec_depth_{min(d, 4)}')
 
@@ -354,8 +357,26 @@ def _haz_class(case):
     return set(f(case['spec'])) if f else set()
 
 
+def _impl_class_sig(case):
+    """the signature fact behind `WFval`: no class writes a constructor parameter under a reserved key"""
+    import inspect
+    import props.c19_classes as KL
+    bad = []
+    for name, cls in sorted(KL.discover().items()):
+        params = getattr(cls, 'serialize_params', None)
+        if params is None:
+            params = [p for p in inspect.signature(cls.__init__).parameters if p != 'self']
+        bad += [[name, p] for p in params if p in CC.RESERVED]
+    return {'n_classes': len(KL.discover()), 'reserved_params': bad}
+
+
+def _oracle_class_sig(case, obs):
+    return [('reserved_param_name', str(obs['reserved_params']))] if obs['reserved_params'] else []
+
+
 def _gen_class(rng, n, n_bad):
     import props.c19_classes as KL
+    yield {'op': 'class_sig', '_tags': ['class_signatures']}
     cov = KL.covered()
     order = list(cov)
     rng.shuffle(order)
@@ -386,10 +407,7 @@ def _impl_blt_rt(case):
 def _haz_blt(case):
     h = set()
     for _, w in case['doc']['ballots']:
-        x = IO.weight_py(w)
-        if isinstance(x, Fraction) and x.denominator != 1:
-            h.add('frac_weight')
-        if x < 0:
+        if IO.weight_py(w) < 0:
             h.add('negative_weight')
     return h
 
@@ -478,6 +496,8 @@ def _tag_doc(c, pre):
     ks = {w['k'] for _, w in d['ballots']}
     for k in ks:
         t.append(pre + '_weight_' + k)
+    if any(w['k'] == 'frac' and '/' in w['v'] for _, w in d['ballots']):
+        t.append(pre + '_weight_proper_fraction')
     if any(k == 'person' for _, _, k in d['cands']):
         t.append(pre + '_person')
     if any(k == 'str' for _, _, k in d['cands']):
@@ -626,10 +646,7 @@ def _haz_stv(case):
     h = set()
     for _, w in doc['ballots']:
         x = IO.weight_py(w)
-        if sysd is None:
-            if isinstance(x, Fraction) and x.denominator != 1:
-                h.add('frac_weight')
-        else:
+        if sysd is not None:
             s = str(x)
             if x != 1 and not ('/' in s or '.' in s or s.isdigit()):
                 h.add('weight_spelling')
@@ -857,9 +874,9 @@ def _gen_stv_text(rng, n):
 
 
 # ------------------------------------------------------------------------------------------------ dispatch
-IMPL = {'codec': _impl_codec, 'class_rt': _impl_class, 'blt_rt': _impl_blt_rt, 'blt_text': _impl_blt_text,
+IMPL = {'codec': _impl_codec, 'class_rt': _impl_class, 'class_sig': _impl_class_sig, 'blt_rt': _impl_blt_rt, 'blt_text': _impl_blt_text,
         'stv_rt': _impl_stv_rt, 'stv_text': _impl_stv_text}
-ORACLE = {'codec': _oracle_codec, 'class_rt': _oracle_class, 'blt_rt': _oracle_rt, 'blt_text': _oracle_blt_text,
+ORACLE = {'codec': _oracle_codec, 'class_rt': _oracle_class, 'class_sig': _oracle_class_sig, 'blt_rt': _oracle_rt, 'blt_text': _oracle_blt_text,
           'stv_rt': _oracle_stv_rt, 'stv_text': _oracle_stv_text}
 MODEL = {'codec': _model_codec, 'class_rt': _model_class, 'blt_rt': _model_blt_rt, 'blt_text': _model_blt_text,
          'stv_rt': _model_stv_rt, 'stv_text': _model_stv_text}
@@ -889,8 +906,8 @@ def compare(case, iobs, mobs):
 CLASS_CLAUSE_HAZ = {
     'outcome_differs': ['validator_defaultdict'], 'json_outcome_differs': ['validator_defaultdict'],
     'dict_differs': ['validator_defaultdict'], 'json_dict_differs': ['validator_defaultdict'],
-    'load_raises': ['checker_nonint_bounds', 'star_fraction', 'star_unscored_name'],
-    'json_raises': ['checker_nonint_bounds', 'star_fraction', 'star_unscored_name'],
+    'load_raises': ['star_unscored_name'],
+    'json_raises': ['star_unscored_name'],
     'save_raises': ['openlist_quota_fraction'],
 }
 
@@ -910,6 +927,8 @@ def nontrivial(case, obs):
         return CC.depth_p(case['v']) >= 1
     if op == 'class_rt':
         return obs.get('save') == 'ok'
+    if op == 'class_sig':
+        return obs['n_classes'] > 50
     if op in ('blt_rt', 'stv_rt'):
         return len(case['doc']['ballots']) >= 1 and len(case['doc']['cands']) >= 2
     return len(case['text']) > 8
@@ -921,6 +940,8 @@ def describe(case):
         return f"votelib.persist.deserialize_value(votelib.persist.serialize_value({CC.py_of_pval(case['v'])!r}))"
     if op == 'class_rt':
         return 'votelib.persist.from_dict(votelib.persist.to_dict(props.c19_classes.build(spec)))'
+    if op == 'class_sig':
+        return 'constructor parameter names of every class carrying to_dict'
     if op == 'blt_rt':
         v, s, c, t = IO.build_doc(case['doc'])
         return f'votelib.io.blt.loads(votelib.io.blt.dumps({v!r}, {s!r}, {c!r}, {t!r}))'
@@ -1055,14 +1076,15 @@ def generate(rng, tier):
 
 
 TECHNIQUE = 'Lean 4 proofs about a model of the dict codec and of the BLT writer/parser + differential correspondence with votelib + round-trip oracle over all classes carrying to_dict'
-LEVEL_TEXT = ('The dict codec of persist.py (serialize_value / deserialize_value / from_dict) and the BLT writer and parser (token level) are '
-              'modelled branch by branch in Lean. Proved for all inputs: every representable value reloads to itself (codec_roundtrip, also through '
-              'to_dict/from_dict), saving fails exactly on values containing something without a dict spelling (codec_rejects / codec_save_ok_iff), '
-              'every well-formed BLT document reloads unchanged (blt_roundtrip: seats, names, any withdrawn subset, weights, title), the BLT parser '
-              'raises only ParseError or one of three named foreign exceptions (blt_error_kinds), only ParseError/IndexError on lexically sane '
-              'text (blt_parse_total_partial) and only ParseError when candidate numbers also respect the header (blt_parse_total_inrange); the candidate/ballot section of an STV file round-trips under explicit conditions on nicknames and ballots (Stv.stv_roundtrip). The full statements are false of the current tree and their negations are proved on concrete '
-              'witnesses (bare set / reserved key in the codec; InvalidOperation, ValueError, IndexError and a silent index alias in the BLT parser). '
-              'All 109 classes carrying to_dict, the system header of the STV format and text lexing are covered by the differential correspondence and a direct '
+LEVEL_TEXT = ('The dict codec of persist.py (serialize_value / deserialize_value / from_dict), the BLT writer and parser and the candidate/ballot '
+              'section of the STV format are modelled branch by branch in Lean (token level for the file formats), following the repaired code '
+              '(722783a, 1c4ee21, b98eeeb). Proved for all inputs: every in-memory value is either refused at save or written to a dictionary that '
+              'reloads to the same value (codec_save_or_faithful; which of the two is decided by Serializable), also through to_dict/from_dict and with '
+              'an identical re-serialisation; every well-formed BLT document reloads unchanged (blt_roundtrip: seats, names, any withdrawn subset, '
+              'int/Decimal/Fraction weights, title); on ANY token lines the BLT parser returns a document or raises the parse error '
+              '(blt_parse_total) and a returned document names listed candidates only (blt_loaded_indices_valid); STV nicknames never collide and '
+              'the STV section round-trips under explicit conditions (Stv.stv_roundtrip), whose necessity is proved on witnesses (open STV findings). '
+              'All 109 classes carrying to_dict, the STV system header and text lexing are covered by the differential correspondence and a direct '
               'round-trip / outcome / exception-type oracle on every run.')
 LEVEL_NOTE = ('Trusted: Lean kernel + propext/Classical.choice/Quot.sound; the correspondence harness (generators, tokeniser, canonicalisation); '
               'constructor reflection, text lexing and the STV format are validated by testing only (bounded by the generator), not proved.')
